@@ -231,6 +231,14 @@ type bscWorld struct {
 	tp       uint64
 	crashNext int
 	pendingSnaps []pendSnap
+	// stub history (lifecycle world): every header the stub chain produced, with the model right after it
+	hist    []bscHist
+	replayQ []*ethtypes.Header
+}
+
+type bscHist struct {
+	h     *ethtypes.Header
+	after *parlia
 }
 
 type bscTx struct {
